@@ -16,6 +16,8 @@ pub struct RawParameters {
     pub definition: String,
     pub globals: BTreeMap<String, String>,
     recursion_level: usize,
+    // The invocation whose arguments were most recently entered into the globals
+    entered: String,
 }
 
 impl RawParameters {
@@ -34,6 +36,7 @@ impl RawParameters {
                 definition,
                 globals,
                 recursion_level,
+                entered: String::new(),
             };
             return previous.next(&previous.invocation);
         }
@@ -45,6 +48,7 @@ impl RawParameters {
             definition,
             globals,
             recursion_level,
+            entered: String::new(),
         }
     }
 
@@ -56,7 +60,15 @@ impl RawParameters {
     pub fn next(&self, definition: &str) -> RawParameters {
         let mut recursion_level = self.recursion_level + 1;
         let mut globals = self.globals.clone();
+        // Op::op() calls next() once more for an invocation whose arguments its caller has
+        // just entered: they must not be resolved again, now against themselves
+        let mut entered = self.entered.clone();
+        let already_entered = entered == definition.trim();
         if definition.is_resource_name() {
+            recursion_level += 1;
+        }
+        if definition.is_resource_name() && !already_entered {
+            entered = definition.trim().to_string();
             globals.remove("_name");
             for (key, mut value) in definition.split_into_parameters() {
                 // An argument referring to the caller's parameters ('$name') is resolved
@@ -75,7 +87,6 @@ impl RawParameters {
             globals.remove("inv");
             globals.remove("omit_fwd");
             globals.remove("omit_inv");
-            recursion_level += 1;
         }
         let invocation = self.invocation.clone();
         let definition = definition.trim().to_string();
@@ -84,6 +95,7 @@ impl RawParameters {
             definition,
             globals,
             recursion_level,
+            entered,
         }
     }
 
